@@ -1,6 +1,7 @@
 package ir
 
 import (
+	"go/types"
 	"go/token"
 	"regexp"
 	"sort"
@@ -75,6 +76,124 @@ func flatten(v ssa.Value, pol bool, out *[]string) {
 		s = "!" + s
 	}
 	*out = append(*out, s)
+	// A call of a small side-effect-free predicate of the module (the result of an "extract
+	// helper" refactoring) additionally contributes the atoms its result implies, rendered with
+	// the caller's arguments in place of the parameters.
+	if call, ok := v.(*ssa.Call); ok {
+		inlinePredicate(call, pol, out)
+	}
+}
+
+// paramSubst maps parameters of a predicate being inlined to the caller's argument values; the
+// renderer prints the argument instead of the parameter name while an inlining is in progress.
+var (
+	paramSubst   = map[*ssa.Parameter]ssa.Value{}
+	inlineDepth  int
+	predicateEff *Effects
+)
+
+// SetPredicateEffects gives the fact engine the effect analysis used to recognise pure predicates.
+func SetPredicateEffects(e *Effects) { predicateEff = e }
+
+func inlinePredicate(call *ssa.Call, pol bool, out *[]string) {
+	if inlineDepth > 1 || predicateEff == nil {
+		return
+	}
+	callee := call.Call.StaticCallee()
+	if callee == nil || callee.Blocks == nil || len(callee.Blocks) > 6 || callee == call.Parent() {
+		return
+	}
+	res := callee.Signature.Results()
+	if res.Len() != 1 {
+		return
+	}
+	if b, ok := res.At(0).Type().Underlying().(*types.Basic); !ok || b.Info()&types.IsBoolean == 0 {
+		return
+	}
+	if len(call.Call.Args) != len(callee.Params) {
+		return
+	}
+	n := 0
+	for _, b := range callee.Blocks {
+		n += len(b.Instrs)
+	}
+	if n > 40 {
+		return
+	}
+	if pure, _ := predicateEff.Pure(callee); !pure {
+		return
+	}
+	// exactly one return
+	var ret *ssa.Return
+	for _, b := range callee.Blocks {
+		if r, ok := b.Instrs[len(b.Instrs)-1].(*ssa.Return); ok {
+			if ret != nil {
+				return
+			}
+			ret = r
+		}
+	}
+	if ret == nil || len(ret.Results) != 1 {
+		return
+	}
+	inlineDepth++
+	for i, q := range callee.Params {
+		paramSubst[q] = call.Call.Args[i]
+	}
+	defer func() {
+		for _, q := range callee.Params {
+			delete(paramSubst, q)
+		}
+		inlineDepth--
+	}()
+	var atoms []string
+	rv := ret.Results[0]
+	switch x := rv.(type) {
+	case *ssa.Phi:
+		// `a && b` : every edge is the constant false except one value V coming from block B;
+		//            the result is true iff control reached B and V is true.
+		// `a || b` : every edge is the constant true except one; false iff reached B and V false.
+		var val ssa.Value
+		var from *ssa.BasicBlock
+		constAll := true
+		var constVal bool
+		first := true
+		for i, e := range x.Edges {
+			if c, ok := e.(*ssa.Const); ok && c.Value != nil && (c.Value.String() == "true" || c.Value.String() == "false") {
+				cv := c.Value.String() == "true"
+				if !first && cv != constVal {
+					constAll = false
+				}
+				constVal, first = cv, false
+				continue
+			}
+			if val != nil {
+				return
+			}
+			val, from = e, x.Block().Preds[i]
+		}
+		if val == nil || !constAll || first {
+			return
+		}
+		if constVal == pol {
+			return // the known outcome is the disjunctive one: nothing can be split off
+		}
+		for _, f := range FactsAtBlock(from) {
+			atoms = append(atoms, f.Atom)
+		}
+		flatten(val, pol, &atoms)
+	default:
+		// single expression: a comparison, a negation, another predicate call
+		if _, isCall := rv.(*ssa.Call); !isCall {
+			if _, isBin := rv.(*ssa.BinOp); !isBin {
+				if _, isUn := rv.(*ssa.UnOp); !isUn {
+					return
+				}
+			}
+		}
+		flatten(rv, pol, &atoms)
+	}
+	*out = append(*out, atoms...)
 }
 
 // CondAtoms returns the normalised atom for a condition with polarity.
@@ -106,8 +225,8 @@ func edgeFact(fi *FnInfo, d, c *ssa.BasicBlock) (cond *ssa.If, pol bool, ok bool
 	return
 }
 
-// FactsAtBlock returns every fact that holds on entry to block b.
-func FactsAtBlock(b *ssa.BasicBlock) []Fact {
+// factsAtBlockOwn: the facts established by the branches of b's own function.
+func factsAtBlockOwn(b *ssa.BasicBlock) []Fact {
 	var out []Fact
 	fi := Info(b.Parent())
 	for c := b; c != nil; c = fi.Idom(c) {
@@ -124,8 +243,74 @@ func FactsAtBlock(b *ssa.BasicBlock) []Fact {
 	return out
 }
 
+var factsBusy = map[*ssa.BasicBlock]bool{}
+
+// FactsAtBlock returns every fact that holds on entry to block b. Inside a transparent
+// helper (see helpers.go) the facts common to all its call sites hold as well; after a call of a
+// transparent helper in a dominating block, the facts at the helper's return hold.
+func FactsAtBlock(b *ssa.BasicBlock) []Fact {
+	out := factsAtBlockOwn(b)
+	if len(newHelpers) == 0 || factsBusy[b] {
+		return out
+	}
+	factsBusy[b] = true
+	defer delete(factsBusy, b)
+	fn := b.Parent()
+	top := fn
+	for top.Parent() != nil {
+		top = top.Parent()
+	}
+	if hi := newHelpers[top]; hi != nil && top == fn {
+		// facts common to every call site
+		var common map[string]Fact
+		for _, s := range hi.sites {
+			m := map[string]Fact{}
+			for _, f := range FactsAt(s.(ssa.Instruction)) {
+				m[f.Atom] = f
+			}
+			if common == nil {
+				common = m
+				continue
+			}
+			for a := range common {
+				if _, ok := m[a]; !ok {
+					delete(common, a)
+				}
+			}
+		}
+		for _, f := range common {
+			out = append(out, f)
+		}
+	}
+	// exit facts of helper calls in strictly dominating blocks
+	fi := Info(fn)
+	for d := fi.Idom(b); d != nil; d = fi.Idom(d) {
+		for _, in := range d.Instrs {
+			if h := helperCallee(in); h != nil {
+				out = append(out, exitFacts(h)...)
+			}
+		}
+	}
+	return out
+}
+
 // FactsAt returns the facts holding at an instruction.
-func FactsAt(in ssa.Instruction) []Fact { return FactsAtBlock(in.Block()) }
+func FactsAt(in ssa.Instruction) []Fact {
+	out := FactsAtBlock(in.Block())
+	if len(newHelpers) == 0 {
+		return out
+	}
+	// helper calls earlier in the same block
+	for _, x := range in.Block().Instrs {
+		if x == in {
+			break
+		}
+		if h := helperCallee(x); h != nil {
+			out = append(out, exitFacts(h)...)
+		}
+	}
+	return out
+}
 
 // FactStrings is the sorted, de-duplicated atom list.
 func FactStrings(fs []Fact) []string {
@@ -214,6 +399,41 @@ func InstrIndex(in ssa.Instruction) int {
 // Precedes reports whether instruction a executes before b on every path that
 // reaches b (a dominates b).
 func Precedes(a, b ssa.Instruction) bool {
+	if a.Parent() != b.Parent() && len(newHelpers) > 0 {
+		// one of them sits in a transparent helper of the other's function: decide at the call site(s)
+		if sites := liftTo(a, b.Parent(), 0); sites != nil {
+			for _, s := range sites {
+				if !Precedes(s, b) {
+					return false
+				}
+			}
+			return true
+		}
+		if sites := liftTo(b, a.Parent(), 0); sites != nil {
+			for _, s := range sites {
+				if !Precedes(a, s) {
+					return false
+				}
+			}
+			return true
+		}
+		// both in (different) helpers of one owner
+		oa, ob := LogicalOwner(EnclosingTop(a.Parent())), LogicalOwner(EnclosingTop(b.Parent()))
+		if oa == ob && oa != nil {
+			sa, sb := liftTo(a, oa, 0), liftTo(b, ob, 0)
+			if sa != nil && sb != nil {
+				for _, x := range sa {
+					for _, y := range sb {
+						if !Precedes(x, y) {
+							return false
+						}
+					}
+				}
+				return true
+			}
+		}
+		return false
+	}
 	if a.Block() == b.Block() {
 		return InstrIndex(a) < InstrIndex(b)
 	}
